@@ -196,6 +196,9 @@ func (cur *FieldMask) addPath(path string, curDesc *thrift_reflection.TypeDescri
 
 			var f *thrift_reflection.FieldDescriptor
 			if typ == pathTypeLitInt {
+				if !tok.val.IsInt32() {
+					return errPath(tok, "field id exceeds the range of int32")
+				}
 				id := tok.val.Int32()
 				f = st.GetFieldById(id)
 				if f == nil {
